@@ -141,4 +141,15 @@ theorem release_by_non_holder_destructs_held_value :
     (y.clean, holdCount y.threads 0, (y.g.ent 0).destructed, y.stuck) = (false, 1, 1, false) := by
   decide
 
+/-- the same for the reverse proxy's per-request client (wave g): a request that gives back a reference for an
+    upstream it did not provision in this iteration — e.g. because the dynamic source's address was replaced by the
+    handler's static upstream without going through `provisionUpstream` — is a release by a client that holds
+    nothing (`requestOps` pairs every release with its own acquisition; this program does not).  Handler A holds
+    address 0; the request's unpaired release removes the entry: the address is absent from the pool while A still
+    remembers its reference — `ClientTrace.per_request_client_keeps_count` fails without its pairing hypothesis. -/
+theorem request_release_without_acquire_breaks_count :
+    let y := (runGroupsSys 1 [[handlerLoadOps [0]], [[.del 0]]] [0, 1]).1
+    (y.clean, y.g.pool 0, holdCount y.threads 0, y.threads.all (fun th => th.pc == .idle)) = (false, none, 1, true) := by
+  decide
+
 end CaddyModel.C04
